@@ -3,7 +3,6 @@ package main
 import (
 	"fmt"
 	"go/constant"
-	"go/types"
 	"sort"
 	"strings"
 
@@ -35,7 +34,7 @@ var opaqueScope []*ssa.Function // the tag function and the helpers it calls (se
 func findOpaqueBodyTable(p *Program, r *Report, rule string) (*ssa.Function, *ssa.Global) {
 	tpk := p.Pkg("template")
 	stObj := tpk.Types.Scope().Lookup("state")
-	lit, err := p.VarLit("template", "transitionFunc")
+	disp, _, err := stateDispatch(p)
 	if stObj == nil || err != nil {
 		r.Undec(rule, "template.transitionFunc", "", "anchor not found")
 		return nil, nil
@@ -47,13 +46,8 @@ func findOpaqueBodyTable(p *Program, r *Report, rule string) (*ssa.Function, *ss
 		if n == "stateSpecialElementBody" {
 			special = v
 		}
-	}
-	for i, k := range lit.Keys {
-		kv, _ := k.Int()
-		if states[kv] == "stateTag" {
-			if f, ok := lit.Vals[i].Obj.(*types.Func); ok {
-				tagFn = p.SSA.FuncValue(f)
-			}
+		if n == "stateTag" {
+			tagFn = disp[v]
 		}
 	}
 	if tagFn == nil || special < 0 {
@@ -284,19 +278,16 @@ func checkConditionalNamesBodyKind(p *Program, r *Report, rule string) {
 func checkAttrNameContinuation(p *Program, r *Report, rule string) {
 	tpk := p.Pkg("template")
 	stObj := tpk.Types.Scope().Lookup("state")
-	lit, err := p.VarLit("template", "transitionFunc")
+	disp, _, err := stateDispatch(p)
 	if stObj == nil || err != nil {
 		r.Undec(rule, "template.transitionFunc", "", "anchor not found")
 		return
 	}
 	states := ConstNames(tpk, stObj.Type())
 	var fn *ssa.Function
-	for i, k := range lit.Keys {
-		kv, _ := k.Int()
-		if states[kv] == "stateAttrName" {
-			if f, ok := lit.Vals[i].Obj.(*types.Func); ok {
-				fn = p.SSA.FuncValue(f)
-			}
+	for v, n := range states {
+		if n == "stateAttrName" {
+			fn = disp[v]
 		}
 	}
 	if fn == nil {
